@@ -766,7 +766,8 @@ def wsq_level_f(ctx, lib):
     if rc != 0:
         raise Infra('unit_wsq build failed: ' + o[-2000:])
     nb = 0; nsteps = 0
-    for cfg in ('WSQReplay.cfg', 'WSQReplay2.cfg'):
+    labels = set()
+    for cfg in ('WSQReplay.cfg', 'WSQReplay2.cfg', 'WSQReplay3.cfg', 'WSQReplay4.cfg'):
         meta = os.path.join(BUILD, 'tlc', 'wsr_%d' % os.getpid()); shutil.rmtree(meta, ignore_errors=True)
         rc, out = java_tlc(['-simulate', 'num=%d' % (60 if ctx.quick else 600), '-depth', '41', '-seed', str(ctx.seed), '-workers', '4', '-metadir', meta, '-config', cfg, 'WSQReplay.tla'],
                            heap='4g', timeout=1200)
@@ -775,7 +776,9 @@ def wsq_level_f(ctx, lib):
         open(bf, 'w').write(out)
         if 'BEHAVIOUR' not in out:
             raise Infra('no behaviours generated by %s: %s' % (cfg, out[-1000:]))
-        rc, o = sh(['python3', os.path.join(VERIF, 'tools', 'wsq_replay.py'), bf, unit], timeout=900)
+        labels |= set(re.findall(r'\\"from\\":\\"(\w+)', out))
+        ib = re.search(r'INITBASE = (\d+)', open(os.path.join(SPEC, cfg)).read()).group(1)
+        rc, o = sh(['python3', os.path.join(VERIF, 'tools', 'wsq_replay.py'), bf, unit, ib], timeout=900)
         m = re.search(r'behaviours=(\d+) steps=(\d+) failed=(\d+)', o)
         if not m:
             ctx.violation('queue unit harness died while replaying specification behaviours (%s): %s' % (cfg, o[-300:]), [bf])
@@ -784,6 +787,11 @@ def wsq_level_f(ctx, lib):
         if int(m.group(3)) > 0:
             first = [l for l in o.split('\n') if l.startswith(('DIVERGE', 'MISMATCH'))][:1]
             ctx.violation('%s of %s specification behaviours of the run queue are not reproduced by the code: %s' % (m.group(3), m.group(1), first), [bf])
+    # vacuity guard: the re-centring paths of push and put and every other labelled step must have been replayed
+    need = {'push_shift', 'push_uls', 'put_w', 'pop_slow', 'pop_fast', 'pop_reset2', 'take_ldt', 'pass_dec'}
+    if not need <= labels:
+        raise Infra('vacuity: queue steps never replayed: %s' % sorted(need - labels))
+    ctx.cov['queue_steps_replayed'] = sorted(labels)
     ctx.cov['behaviours_replayed_into_impl'] = nb
     ctx.cov['replayed_steps'] = nsteps
     ctx.cov['traces_validated_against_impl'] += nb
